@@ -311,5 +311,19 @@ CHECKS["C12"] = {
     "level_note": "A killed process is modelled as 'the file as it is at a step boundary' (in-process); torn writes inside a single write(2), fsync and power loss are outside the statement.",
 }
 
+CHECKS["C18"] = {
+    "level": "exploration",
+    "rule": "3-10 goroutines, each running 3-12 generated operations at once against one router (all nine commands on three services, "
+            "requests: plain / cookie / health path / slow / POST / upgraded connection, probe flaps, SNI lookups, waits), from a "
+            "reachable starting state that in a quarter of the cases was restored from a state file; run under the race detector in a "
+            "synctest bubble (virtual time keeps timeouts cheap); oracle: no race report, no panic (recovered or logged), no bubble "
+            "deadlock, the proxy still lists and deploys afterwards. Race reports are identified by the pair of innermost kamal-proxy "
+            "frames. Non-trivial = at least two operations touched the same service. Distinct by plan hash.",
+    "layers": [L("TestVF_C18", 150, 2500, race_always=True, crash_is_violation=True, qenv={"GORACE": "halt_on_error=0"}, tenv={"GORACE": "halt_on_error=0"})],
+    "technique": "concurrency stress driven by property-based testing (rapid) under the Go race detector: generated operation lists on real goroutines, no gates",
+    "level_text": "Bounded random exploration of overlapping operations; the race detector reports only pairs of accesses that were actually executed, so absence is never established.",
+    "level_note": "Schedule is the Go scheduler's (not controlled, not replayable exactly); a replay re-runs the same operation lists up to 20 times.",
+}
+
 ALL_IDS = ["C%02d" % i for i in range(1, 21)]
 NOT_APPLICABLE = {pid: "check not built yet (work in progress; see DESIGN.md section 8 for the order of work)" for pid in ALL_IDS if pid not in CHECKS}
